@@ -310,6 +310,8 @@ func checkC15(c *Ctx) {
 	checkConstantFormats(c, "C15.R4.constant-formats", []*packages.Package{pk, cmds})
 	checkReportLinesKept(c, "C15.R4.lines-kept", pk)
 	checkLocatedByKey(c, "C15.R2.located-by-key", pk)
+	// a report fed back as an ignore file cancels the next run only if the same difference is located the same way in every run
+	checkVisitedOrder(c, "C15.R3.visited-order", pk, false)
 	// an entry copied from one run's report cancels the same difference of the next run only if
 	// the text of the difference is a function of the two specs: no map iteration order in it
 	c.Rule("C15.R3.stable-entries", "order taint over the diff package: the location and info of a difference never depend on map iteration order (ranges are order-insensitive, sorted before they escape, or reviewed)", 30)
